@@ -418,6 +418,97 @@ func runC19(c *Ctx) {
 		}
 		walk(f, false)
 	}
+	// L6: a variable of the enclosing function that a goroutine reads is not written by the
+	// starter while that goroutine may still run: no path from the go statement to a store of
+	// the variable that avoids both the join (Wait) and a re-allocation of the variable (a
+	// per-iteration copy is a new variable each time; a loop variable declared outside the
+	// loop is not — under the module's go 1.13 semantics every iteration overwrites it)
+	n6 := 0
+	for _, f := range c.AllFns {
+		if f.Pkg == nil || f.Pkg.Pkg.Path() == pParser {
+			continue
+		}
+		x := c.Index(f)
+		gi := 0
+		eachInstr(f, func(in ssa.Instruction) {
+			g, ok := in.(*ssa.Go)
+			if !ok {
+				return
+			}
+			gi++
+			lit := closureOfGo(g)
+			mc, _ := g.Call.Value.(*ssa.MakeClosure)
+			if lit == nil || mc == nil {
+				return
+			}
+			for i, b := range mc.Bindings {
+				al, isAl := b.(*ssa.Alloc)
+				if !isAl || i >= len(lit.FreeVars) {
+					continue
+				}
+				if isSyncType(al.Type().(*types.Pointer).Elem(), "Mutex") || isSyncType(al.Type().(*types.Pointer).Elem(), "RWMutex") || isSyncType(al.Type().(*types.Pointer).Elem(), "WaitGroup") {
+					continue
+				}
+				reads := false
+				var walk func(fv ssa.Value, d int)
+				walk = func(fv ssa.Value, d int) {
+					if d > 4 {
+						return
+					}
+					for _, r := range *fv.Referrers() {
+						switch t := r.(type) {
+						case *ssa.UnOp:
+							reads = true
+						case *ssa.MakeClosure:
+							if l2, ok := t.Fn.(*ssa.Function); ok {
+								for k, b2 := range t.Bindings {
+									if b2 == fv && k < len(l2.FreeVars) {
+										walk(l2.FreeVars[k], d+1)
+									}
+								}
+							}
+						}
+					}
+				}
+				walk(lit.FreeVars[i], 0)
+				if !reads {
+					continue
+				}
+				n6++
+				var racy *ssa.Store
+				for _, st := range x.stores[al] {
+					if st.Parent() != f {
+						continue
+					}
+					if _, reach := pathExists(f, g, func(i2 ssa.Instruction) bool { return i2 == ssa.Instruction(st) }, func(i2 ssa.Instruction) bool {
+						if i2 == ssa.Instruction(al) {
+							return true
+						}
+						if _, m, _, isSync := syncCall(i2); isSync && m == "Wait" {
+							return true
+						}
+						// a channel operation of the starter may order it against the goroutine
+						switch t := i2.(type) {
+						case *ssa.Send, *ssa.Select:
+							return true
+						case *ssa.UnOp:
+							return t.Op == token.ARROW
+						}
+						return false
+					}); reach {
+						racy = st
+					}
+				}
+				key := fmt.Sprintf("%s#go%d/%s", fnName(f), gi, al.Comment)
+				pos := g.Pos()
+				if racy != nil {
+					pos = racy.Pos()
+				}
+				c.Check("L6-goroutine-reads-stable", key, racy == nil, pos, "the goroutine started here reads variable %s of its starter, which the starter overwrites while the goroutine may still be running (no join and no fresh copy in between): a data race", al.Comment)
+			}
+		})
+	}
+	c.Min("L6-goroutine-reads-stable", 20)
 	if n == 0 {
 		c.Lost("L5-captured-writes-locked", "stores to captured variables inside goroutines")
 	}
